@@ -44,7 +44,7 @@ def plans(tier, seed):
         [("flag", ["o2"])],
     ]
     out = list(curated)
-    n = 25 if tier == "quick" else 400
+    n = 120 if tier == "quick" else 1200
     pool = []
     for a in AGENTS3:
         for i in items:
